@@ -104,5 +104,5 @@ Theorems ==
                               /\ Lone(NormSegs(Q.path)) = Lone(N) /\ IsAbs(Q.path) = abs
 
 VocabUri == {<<>>, <<97>>, DOT, DOTDOT, <<98, 58, 99>>, <<37, 50, 101>>}
-VocabIri == {<<>>, <<97>>, DOT, DOTDOT, <<98, 58, 99>>, <<37, 50, 101>>, <<233>>}
+VocabIri == {<<>>, <<97>>, DOT, DOTDOT, <<98, 58, 99>>, <<37, 50, 101>>, <<233>>, <<97, 46, 46>>}
 =============================================================================
